@@ -79,7 +79,7 @@ def one_definition(ctx, facts, cfg):
                 if rec is None:
                     ctx.violation(R, 'instance-missing:%s%s:%s' % (K, side, meth), 'instance %s not found (is the method still provided by the trait?)' % key, fn=key, cfg=cfg)
                     continue
-                calls = [c.get('key') for c in rec['calls'].values() if c.get('local')]
+                calls = [c.get('key') for c in rec['calls'].values() if c.get('local') and (c.get('trait') or '').startswith('rate::Rate')]
                 want = '%s::%s' % (rate, meth)
                 n += 1
                 if calls == [want]:
@@ -89,7 +89,7 @@ def one_definition(ctx, facts, cfg):
         vk = '%s::validate' % rate
         rec = facts.instances.get(vk)
         if rec is not None:
-            calls = [c.get('key') for c in rec['calls'].values() if c.get('local')]
+            calls = [c.get('key') for c in rec['calls'].values() if c.get('local') and (c.get('trait') or '').startswith('rate::Rate')]
             if calls == ['%s::supports' % rate]:
                 ctx.ok(R, '%s@%s' % (vk, cfg), {'uses': '%s::supports' % rate})
             else:
@@ -98,8 +98,7 @@ def one_definition(ctx, facts, cfg):
     # DefaultRate::supports == decision(o, r).is_ok()
     ds = ctx.anchor(facts, '<rate::rate_default::DefaultRate<E> as rate::Rate<E>>::supports', R)
     if ds is not None:
-        tails = []
-        c12.collect_tails(ds.hir['value'], (), {}, tails)
+        tails = core.fn_exits(ds)
         okd = False
         if len(tails) == 1:
             v = hcanon(tails[0][0], {})
@@ -120,8 +119,7 @@ def validate_table(ctx, facts, cfg):
     fn = ctx.anchor(facts, 'rate::Rate::validate', R)
     if fn is None:
         return
-    tails = []
-    c12.collect_tails(fn.hir['value'], (), {}, tails)
+    tails = core.fn_exits(fn)
     o, r, sb = ('local', 'original_count'), ('local', 'recovery_count'), ('local', 'shard_bytes')
     Z = core.norm_bin('Eq', sb, ('const', 0))
     ODD = {core.norm_bin('Ne', core.norm_bin('BitAnd', sb, ('const', 1)), ('const', 0)),
@@ -214,7 +212,7 @@ def constructors(ctx, facts, cfg):
                 fs = S.fail_sources(key)
                 args3 = (('param', 'original_count'), ('param', 'recovery_count'), ('param', 'shard_bytes'))
                 if K != 'Default':
-                    want = {('pred', '%s::validate' % codec, args3)}
+                    want = {('pred', S.canon_pred('%s::validate' % codec), args3)}
                     if fs == want:
                         # Ok exit dominated by the Ok edge of a call chain containing that validate: the `?`/tail structure guarantees it
                         body = fn.body
@@ -223,7 +221,7 @@ def constructors(ctx, facts, cfg):
                         tss = [ts for ts in core.try_sites(body) if ts['ok_bb'] is not None]
                         dom = (not okb) or any(all(body.edge_dominates((ts['switch_bb'], ts['ok_bb']), ob) for ob in okb) for ts in tss)
                         tail = [b for (b, k, d) in oks if k == 'tailcall']
-                        if (dom or tail) and must_pass(facts, S, key, '%s::validate' % codec):
+                        if (dom or tail) and must_pass(facts, S, key, S.canon_pred('%s::validate' % codec)):
                             ctx.ok(R, '%s@%s' % (key, cfg), {'fails_exactly_through': core.short(codec) + '::validate(original_count, recovery_count, shard_bytes)'})
                         elif dom or tail:
                             ctx.violation(R, 'ok-without-validate:%s%s:%s' % (K, side, meth),
@@ -242,7 +240,7 @@ def constructors(ctx, facts, cfg):
                     allowed = set()
                     for side2 in (side,):
                         for K2, mod2 in (('High', KINDS['High']), ('Low', KINDS['Low'])):
-                            allowed.add(('pred', '<%s::%sRate%s<E> as rate::Rate%s<E>>::validate' % (mod2, K2, side2, side2), args3))
+                            allowed.add(('pred', S.canon_pred('<%s::%sRate%s<E> as rate::Rate%s<E>>::validate' % (mod2, K2, side2, side2)), args3))
                     if dec:
                         allowed.add(('pred', dec, args3[:2]))
                     bad = sorted(fs - allowed, key=repr)
@@ -281,14 +279,14 @@ def must_pass(facts, S, key, pred, depth=0):
         if ts['call_bb'] is None or ts['ok_bb'] is None:
             continue
         ck = inst.callee_key(ts['call_bb'])
-        if ck == pred or (ck in facts.instances or ck in facts.fns) and ck != key and must_pass(facts, S, ck, pred, depth + 1):
+        if S.canon_pred(ck) == pred or (ck in facts.instances or ck in facts.fns) and ck != key and must_pass(facts, S, ck, pred, depth + 1):
             good_edges.append((ts['switch_bb'], ts['ok_bb']))
     for ob in ok_ctor:
         if not any(body.edge_dominates(e, ob) for e in good_edges):
             return False
     for tb in ok_tail:
         ck = inst.callee_key(tb)
-        direct = (ck == pred) or ((ck in facts.instances or ck in facts.fns) and ck != key and must_pass(facts, S, ck, pred, depth + 1))
+        direct = (S.canon_pred(ck) == pred) or ((ck in facts.instances or ck in facts.fns) and ck != key and must_pass(facts, S, ck, pred, depth + 1))
         if not direct and not any(body.edge_dominates(e, tb) for e in good_edges):
             return False
     return bool(ok_ctor or ok_tail)
